@@ -14,6 +14,9 @@ package main
 //   fault      Go-side oracle: a run with one altered field must not complete
 
 import (
+	"bufio"
+	"bytes"
+	"sync"
 	"encoding/hex"
 	"fmt"
 	"math/big"
@@ -43,6 +46,31 @@ func runC09(c *Ctx) {
 
 // ---------------------------------------------------------------------------------------------
 // helpers
+
+// c09Parallel runs independent sub-streams concurrently, each into its own buffer, and appends
+// their output in the fixed job order (deterministic output).
+func c09Parallel(c *Ctx, jobs []func(*Ctx)) {
+	bufs := make([]*bytes.Buffer, len(jobs))
+	subs := make([]*Ctx, len(jobs))
+	var wg sync.WaitGroup
+	for i, job := range jobs {
+		bufs[i] = &bytes.Buffer{}
+		subs[i] = &Ctx{Prop: c.Prop, Tier: c.Tier, Seed: c.Seed, Out: bufio.NewWriterSize(bufs[i], 1<<20), Stats: map[string]int{}}
+		wg.Add(1)
+		go func() {
+			defer wg.Done()
+			job(subs[i])
+			subs[i].Out.Flush()
+		}()
+	}
+	wg.Wait()
+	for i := range jobs {
+		_, _ = c.Out.Write(bufs[i].Bytes())
+		for k, v := range subs[i].Stats {
+			c.Stats[k] += v
+		}
+	}
+}
 
 // c09Guard runs fn with panic capture and a watchdog; a hang is an implementation-side violation.
 func c09Guard(c *Ctx, what string, fn func() string) string {
